@@ -65,6 +65,7 @@ fn main() {
         "psl-enumerate" => guarded(move || pslenum::run(&arg)),
         "psl-rules" => guarded(move || pslenum::emit_rules(&arg)),
         "hid-packets" => guarded(move || hid::packets_no_panic(&arg)),
+        "hid-send-fields" => guarded(move || hid::send_fields(&arg)),
         "hid-roundtrip" => guarded(move || hid::roundtrip(&arg)),
         "hid-interleave" => guarded(move || hid::interleave(&arg)),
         _ => (false, false, format!("unknown entry {entry}")),
